@@ -110,3 +110,20 @@ Proof. reflexivity. Qed. (* BAR.BLock, deferred BUnlock, FnB/FnE *)
 Lemma link_sk_bar_BarrierGuard : C18_Gen.sk_bar_BarrierGuard =
   ["Guard"].
 Proof. reflexivity. Qed. (* Barrier.Guard delegates to Guard *)
+
+Lemma link_sk_mr_Take : C18_Gen.sk_mr_Take =
+  ["mr.lock.RLock"; "mr.lock.RUnlock"; "return"; "mr.lock.Lock"; "defer:mr.lock.Unlock"; "mr.generate"; "return"].
+Proof. reflexivity. Qed. (* MR.TRLock, TRead/TRUnlock, TWLock, TGen, deferred unlock = TWUnlock *)
+
+Lemma link_sk_mr_MarkBroken : C18_Gen.sk_mr_MarkBroken =
+  ["mr.lock.Lock"; "defer:mr.lock.Unlock"; "mr.equal"].
+Proof. reflexivity. Qed. (* MR.MLock, MEq (equal under the write lock), MSet, deferred unlock = MUnlock *)
+
+Lemma link_sk_ir_Get : C18_Gen.sk_ir_Get =
+  ["ir.lock.RLock"; "ir.lock.RUnlock"; "return"; "ir.fetch"; "ir.lock.Lock"; "ir.lock.Unlock"; "ir.maybeRefresh";
+   "ir.lock.RLock"; "ir.lock.RUnlock"; "return"].
+Proof. reflexivity. Qed. (* IR.IRead1; closure = IFetchB/IFetchE, IStore; maybeRefresh; IRead2 *)
+
+Lemma link_sk_ir_maybeRefresh : C18_Gen.sk_ir_maybeRefresh =
+  ["timex.Now"; "ir.lastTime.Load"; "ir.lastTime.Set"; "execute"].
+Proof. reflexivity. Qed. (* IR.ILoad, IDecide (Set), execute = the closure *)
